@@ -125,6 +125,141 @@ def run_driver(ops, timeout=1800):
     return [json.loads(l) for l in lines]
 
 
+# --------------------------------------------------------------------------- line coverage of the anchored code
+
+class LineCov:
+    """Which lines of /repo/puan ran during the correspondence (sys.monitoring, each line reported once).
+    Informational: it tells the reader which lines of a property's anchored ranges the tie never exercised."""
+
+    def __init__(self):
+        self.hit = collections.defaultdict(set)
+        self.on = False
+        self.root = os.path.realpath(os.path.join(REPO, "puan")) + os.sep
+
+    def start(self):
+        mon = getattr(sys, "monitoring", None)
+        if mon is None:
+            return
+        try:
+            self.tool = mon.COVERAGE_ID
+            mon.use_tool_id(self.tool, "verif-linecov")
+            mon.register_callback(self.tool, mon.events.LINE, self._line)
+            mon.set_events(self.tool, mon.events.LINE)
+            self.on = True
+        except Exception:
+            self.on = False
+
+    def _line(self, code, line):
+        fn = code.co_filename
+        if fn.startswith(self.root):
+            self.hit[fn[len(self.root):]].add(line)
+        return sys.monitoring.DISABLE
+
+    def stop(self):
+        if self.on:
+            sys.monitoring.set_events(self.tool, 0)
+            sys.monitoring.free_tool_id(self.tool)
+            self.on = False
+
+    @staticmethod
+    def executable_lines(path):
+        """line numbers that carry code inside function bodies (module-level and class-level statements run at import)"""
+        out = set()
+        try:
+            top = compile(open(path).read(), path, "exec")
+        except Exception:
+            return out
+        def walk(co, infunc):
+            for c in co.co_consts:
+                if hasattr(c, "co_lines"):
+                    isfn = not (c.co_name.startswith("<") and c.co_name not in ("<lambda>", "<listcomp>", "<genexpr>", "<dictcomp>", "<setcomp>"))
+                    # a class body is a code object named after the class and run at import: detect via flags (no CO_OPTIMIZED)
+                    optimized = bool(c.co_flags & 0x1)
+                    if optimized:
+                        first = c.co_firstlineno
+                        for _, _, ln in c.co_lines():
+                            if ln is not None and ln != first:
+                                out.add(ln)
+                    walk(c, optimized)
+        walk(top, False)
+        return out
+
+    _maps = {}
+
+    @classmethod
+    def line_map(cls, rel):
+        """old line (pinned tree the anchors were written for) -> line of the current working tree"""
+        if rel in cls._maps:
+            return cls._maps[rel]
+        mp = None
+        try:
+            import difflib
+            pin = open(os.path.join(VERIF, "tools", "pinned_commit")).read().strip()
+            old = subprocess.run(["git", "-C", REPO, "show", f"{pin}:{rel}"], capture_output=True, text=True, timeout=60)
+            if old.returncode == 0:
+                a = old.stdout.split("\n")
+                b = open(os.path.join(REPO, rel)).read().split("\n")
+                mp = {}
+                for tag, i1, i2, j1, j2 in difflib.SequenceMatcher(None, a, b, autojunk=False).get_opcodes():
+                    if tag == "equal":
+                        for k in range(i2 - i1):
+                            mp[i1 + k + 1] = j1 + k + 1
+        except Exception:
+            mp = None
+        cls._maps[rel] = mp
+        return mp
+
+    @classmethod
+    def map_range(cls, rel, a, b):
+        mp = cls.line_map(rel)
+        if not mp:
+            return a, b
+        na = next((mp[x] for x in range(a, b + 1) if x in mp), None)
+        nb = next((mp[x] for x in range(b, a - 1, -1) if x in mp), None)
+        if na is None or nb is None:
+            return a, b
+        return na, nb
+
+    def report(self, pid):
+        """per anchored range of the property: executable lines, lines hit, lines missed"""
+        if not self.on and not self.hit:
+            return {"available": False}
+        anchors = []
+        try:
+            for l in open(os.path.join(VERIF, "properties.jsonl")):
+                pr = json.loads(l)
+                if pr.get("id") == pid:
+                    for mech in pr.get("anchors", {}).get("mechanism", []):
+                        anchors.append(mech.get("where", ""))
+        except Exception:
+            pass
+        res, tot_e, tot_h = [], 0, 0
+        for where in anchors:
+            for part in where.split(";"):
+                part = part.strip()
+                m = re.match(r"(\S+?):([\d,\-\s]+)$", part)
+                if not m:
+                    continue
+                rel, ranges = m.group(1), m.group(2)
+                full = os.path.join(REPO, rel)
+                ex = self.executable_lines(full)
+                key = rel[len("puan/"):] if rel.startswith("puan/") else rel
+                hit = self.hit.get(key, set())
+                for r in ranges.split(","):
+                    r = r.strip()
+                    if not r:
+                        continue
+                    a, _, b = r.partition("-")
+                    a, b = int(a), int(b or a)
+                    a, b = self.map_range(rel, a, b)
+                    e = sorted(x for x in ex if a <= x <= b)
+                    h = [x for x in e if x in hit]
+                    tot_e += len(e); tot_h += len(h)
+                    res.append({"where": f"{rel}:{r}", "now": f"{a}-{b}", "executable": len(e), "hit": len(h), "missed": [x for x in e if x not in hit]})
+        return {"available": True, "anchored_executable_lines": tot_e, "anchored_lines_hit": tot_h, "ranges": res,
+                "note": "`where` is the anchor as given (pinned tree); `now` is the same range mapped onto the working tree through a diff against the pinned commit; `missed` are working-tree line numbers"}
+
+
 # --------------------------------------------------------------------------- bookkeeping
 
 def canon(x):
@@ -227,6 +362,9 @@ def run_check(pid, module, argv):
 
     # 2. correspondence + oracle
     import_puan()
+    lcov = LineCov()
+    if os.environ.get("VERIF_LINECOV", "1") != "0":
+        lcov.start()
     ctx = Ctx(pid, a.tier, a.seed)
     disagreements = []
     try:
@@ -257,6 +395,8 @@ def run_check(pid, module, argv):
     except subprocess.TimeoutExpired as e:
         print(f"HARNESS-TIMEOUT {e}", file=sys.stderr)
         sys.exit(2)
+
+    lcov.stop()
 
     # 3. failing-input search when the tie or a proof broke and the oracle saw nothing yet
     search_evals = 0
@@ -317,6 +457,7 @@ def run_check(pid, module, argv):
         "disagreement_ops": dict(collections.Counter(d["op"] for d in disagreements)),
         "search_extra_cases": search_evals, "exhaustive": bool(ctx.exhaustive),
         "notes": ctx.notes,
+        "anchor_line_coverage": lcov.report(pid),
     }
     evidence = {"property_id": pid, "tier": a.tier, "seed": a.seed, "level": "proof", "coverage": cov,
                 "assumptions": getattr(module, "ASSUMPTIONS", []), "wall_s": round(time.time() - t0, 2),
